@@ -20,8 +20,8 @@ pub struct Case {
 }
 
 pub const TARGETS: [&str; 3] = ["BTreeMap<Tree,Tree>", "Vec<(Tree,Tree)> collector", "struct{a,b:Option<Tree>}"];
-pub const KEY_LABELS: [&str; 13] =
-    ["a", "\"a\"", "'a'", "b", "1", "!!str a", "[a]", "[a, b]", "{a: 1}", "{b: 2, a: 1}", "*ka", "!t a", "!u a"];
+pub const KEY_LABELS: [&str; 14] =
+    ["a", "\"a\"", "'a'", "b", "1", "!!str a", "[a]", "[a, b]", "{a: 1}", "{b: 2, a: 1}", "*ka", "!t a", "!u a", "!t [a]"];
 pub const VAL_LABELS: [&str; 5] = ["1", "[1, [2, {c: 3}]]", "{d: {e: [f]}}", "*vc", "|literal"];
 
 fn key_node(i: u8) -> Node {
@@ -40,7 +40,9 @@ fn key_node(i: u8) -> Node {
         10 => Node::alias("ka"),
         11 => p("a").tagged("!t"),
         // a second application tag: the same text under another tag is another key
-        _ => p("a").tagged("!u"),
+        12 => p("a").tagged("!u"),
+        // a tagged sequence: another key than the untagged `[a]`
+        _ => Node::seq(vec![p("a")]).flowed().tagged("!t"),
     }
 }
 
@@ -59,7 +61,7 @@ fn val_node(i: u8) -> Node {
 fn key_identity(k: &Node) -> String {
     match &k.kind {
         Kind::Scalar { text, .. } => format!("S({:?},{:?})", text, k.tag),
-        Kind::Seq(v) => format!("Q[{}]", v.iter().map(key_identity).collect::<Vec<_>>().join(",")),
+        Kind::Seq(v) => format!("Q{:?}[{}]", k.tag, v.iter().map(key_identity).collect::<Vec<_>>().join(",")),
         Kind::Map(v) => format!("M{{{}}}", v.iter().map(|(a, b)| format!("{}:{}", key_identity(a), key_identity(b))).collect::<Vec<_>>().join(",")),
         Kind::Alias(_) => key_identity(&Node::plain("a")), // *ka refers to the plain scalar `a`
     }
